@@ -8,7 +8,7 @@
 
 use std::io::{BufRead, Write};
 
-use risinglight::storage::verif_api::{ReadOp, build_column};
+use risinglight::storage::verif_api::{ReadOp, build_column, build_fixed_char_column};
 use risinglight::types::{DataType, DataValue};
 use serde::Deserialize;
 use serde_json::{Value, json};
@@ -25,6 +25,9 @@ struct Case {
     chunks: Vec<Vec<Value>>,
     start: u32,
     seed: u64,
+    /// fixed-width CHAR column of this width (type must be varchar)
+    #[serde(default)]
+    char_width: u64,
 }
 
 fn data_type(ty: &str) -> DataType {
@@ -94,7 +97,12 @@ async fn run_case(case: &Case) -> Value {
         .map(|c| c.iter().map(|v| value(v, &ty)).collect())
         .collect();
     let total: usize = chunks.iter().map(|c| c.len()).sum();
-    let mut col = match build_column(ty.clone(), case.nullable, &case.encode, case.block, &chunks, case.start).await {
+    let built = if case.char_width > 0 {
+        build_fixed_char_column(case.char_width, case.nullable, &case.encode, case.block, &chunks, case.start).await
+    } else {
+        build_column(ty.clone(), case.nullable, &case.encode, case.block, &chunks, case.start).await
+    };
+    let mut col = match built {
         Ok(c) => c,
         Err(e) => return json!({"id": case.id, "build_err": e.to_string()}),
     };
